@@ -10,6 +10,7 @@ Bytes input(Rng &rng, int level, size_t max_size, std::string *desc);
 Bytes tiny(Rng &rng);
 Bytes runs_around_limits(Rng &rng, size_t n, unsigned alpha);
 Bytes capacity_edge(Rng &rng, int level, bool sequential_like);     // RLE'd size lands on cap-3..cap+3
+Bytes seq_edge(Rng &rng, int level);          // run crossing an input-chunk boundary while the block is one byte from full
 Bytes random_bytes(Rng &rng, size_t n, unsigned alpha);
 Bytes markov_text(Rng &rng, size_t n);
 Bytes fibonacci(Rng &rng, size_t n);
